@@ -120,7 +120,8 @@ CLAIMS = {
              '_handle_error, emit guard and _handle_eio_disconnect with the harness as server: every subset/order of two '
              'namespaces, auth forms, wait on/off, every accept/refuse/silence pattern, a second attempt after a failed '
              'connect, a connected life, every way of ending it, and a fresh connection probed with a late ACK and a '
-             'stray attachment; after each step namespaces/get_sid/connected are compared with the server view and '
+             'stray attachment; the server may also accept a namespace and end it at once, and the transport may be lost '
+             'behind the answers while connect() still waits; after each step namespaces/get_sid/connected are compared with the server view and '
              'handler invocation counts with the model. Exhaustive within those bounds.',
         ref='5 C08', technique='symbolic execution (CrossHair+z3) of the real client over bounded histories vs server-view model'),
     'C02': dict(
@@ -137,7 +138,10 @@ CLAIMS = {
              'cancelled application callback, raising server operation, raising and restarted listen iterator); a '
              'sentinel after every item must be delivered exactly once, echoes must not be re-applied, foreign '
              'acknowledgements must not complete local callbacks. The plan is the only symbolic input, so this is '
-             'solver-driven enumeration of the bounded plan space on the real code.',
+             'solver-driven enumeration of the bounded plan space on the real code. The real RedisManager / AsyncRedisManager '
+             'run on a fake of the redis client library (broker scripts with drops, failing reconnections, foreign '
+             'messages): the loop must end listening on a subscribed connection, waits follow 1,2,4..60 and restart at 1, '
+             'publish retries once and gives up quietly.',
         ref='5 C15', technique='solver-driven enumeration (CrossHair+z3) of channel contents and fault positions on the real listener'),
     'C18': dict(
         text='Symbolic execution of the real InstrumentedServer/InstrumentedAsyncServer: (gate) admin CONNECT through the '
@@ -163,7 +167,7 @@ CLAIMS = {
              'duplicate ACKs, transport loss, class-based namespaces), all triples of 22 client operations, all pairs of 9 '
              'pub/sub message kinds x 4 encodings x 4 variants through both listeners, all triples of 8 simple-client '
              'operations; packets per peer in order, handler/callback invocations, API results or exception types, '
-             'contained exceptions, published messages and final state must be identical.',
+             'contained exceptions, published messages and final state must be identical; the API of a write-only manager is compared pairwise as well.',
         ref='5 C14', technique='solver-driven script enumeration (CrossHair+z3); differential threaded vs asyncio on the real classes'),
     'C19': dict(
         text='Systematic enumeration, driven by the solver, of all schedules (at the granularity of event and buffer '
